@@ -135,6 +135,17 @@ Theorem C05_ctor_refuted_if_unsized :
   tph (gett (run (ctor_config cap vs) (repeat 0 (2 * S cap))) 0) = PSend 0.
 Proof. exact ctor_refuted_if_unsized. Qed.
 
+(* for every capacity and every list of initial values, under every schedule: the
+   constructor's AddValue calls all return iff the values fit *)
+Theorem C05_ctor_returns_iff_sized :
+  forall cap vs,
+    (exists sched, final (run (ctor_config cap vs) sched) = true) <-> length vs <= cap.
+Proof. exact ctor_returns_iff. Qed.
+
+Theorem C05_ctor_unsized_never_returns :
+  forall cap vs sched, cap < length vs -> final (run (ctor_config cap vs) sched) = false.
+Proof. exact ctor_unsized_never_returns. Qed.
+
 (* ---- non-vacuity ---- *)
 
 (* 2 producers x 2 values, closer, 2 consumers, capacity 1 *)
@@ -215,6 +226,10 @@ Example ex_pcd_maximal_run :
     length ex_strict_d = mu ex_pcd.
 Proof. eexists. split; [vm_compute; reflexivity|]. vm_compute. repeat split. Qed.
 
+(* the constant read from queue.go by tools/genparams.py *)
+Example ex_default_capacity : Z.to_nat queue_default_capacity = 16.
+Proof. reflexivity. Qed.
+
 (* constructors: 20 initial values need capacity max(16, 20) = 20 *)
 Example ex_ctor :
   let vs := map Z.of_nat (seq 1 20) in
@@ -238,3 +253,5 @@ Print Assumptions C05_terminal_state.
 Print Assumptions C05_values_conserved.
 Print Assumptions C05_ctor.
 Print Assumptions C05_ctor_refuted_if_unsized.
+Print Assumptions C05_ctor_returns_iff_sized.
+Print Assumptions C05_ctor_unsized_never_returns.
